@@ -16,6 +16,7 @@
 #include <stdexcept>
 #include <string>
 #include <typeinfo>
+#include <type_traits>
 
 namespace dwgrep_verif
 {
